@@ -102,13 +102,43 @@ def inline_generics(ctx):
             if s != res[p]:
                 res[p] = s
                 changed = True
+    per_field = {}
+    for p, adt in adts.items():
+        for v in adt["variants"]:
+            for f in v["fields"]:
+                fs = inline_params_of_type(f["ty"]) & set(adt["generics"])
+                if fs:
+                    per_field.setdefault(p, {})[f["name"]] = fs
+    inline_generics.per_field = per_field
     return res
+
+
+def pinned_fields(ctx, p):
+    """Fields of the pin-projected struct p that its generated `project` hands out as Pin<&mut Field> (structural pinning)."""
+    from lib_inter import returned_exprs
+    out = set()
+    for b in ctx.facts.body_list:
+        if b.j["promoted"] is None and re.search(r"::_::<impl %s<.*>>::project$" % re.escape(p), b.path):
+            for rb, e in returned_exprs(ctx, b):
+                if e[0] == "agg" and len(e) > 3:
+                    for nm, op in zip(e[3], e[2]):
+                        if op[0] == "call" and re.search(r"core::pin::Pin::<.*>::new_unchecked$", op[1] or ""):
+                            out.add(nm)
+    return out
+
+
+# generic parameters that may sit inline in a field that is NOT structurally pinned, with the reason
+UNPINNED_OK = {
+    ("ForEachConcurrent", "F"): "the user's FnMut closure: called, never polled",
+}
 
 
 def r8_1(ctx, R):
     ctx.rule("R8.1", "storage shape: slot enum only as Pin<Box<[Slot<F>]>> in field types; that field constructed only by "
-                     "aggregates in slot-map constructors, never stored to; inline-holder table; manual Unpin impls only on "
-                     "types that hold no type parameter inline")
+                     "aggregates in slot-map constructors, never stored to; a struct holds a type parameter inline only in a "
+                     "structurally pinned field (its pin-projection hands the field out as Pin<&mut _>) -- the slot enum and "
+                     "the user closure of for_each_concurrent are the reasoned exceptions; manual Unpin impls only on types "
+                     "that hold no type parameter inline")
     enum_path, sm_path, slots_field = R.slot_enum
     n = 0
     for p, adt in ctx.facts.adts.items():
@@ -177,14 +207,22 @@ def r8_1(ctx, R):
             gen = [k for k in insts if ctx.facts.type_mentions(k, lambda x, c: x["k"] == "param" and x["name"] not in ctx.facts.adts[p]["generics"])]
             ctx.ob("R8.1", p, "dequeue-result-enum-never-over-a-child", not gen, "", "instantiations %s" % insts)
             continue
-        key = p.split("::")[-1]
+        why = []
+        okh = True
         if p == R.slot_enum[0]:
-            key = "Slot"            # the slot enum, located by role
-        elif p == order_wrapper_path(ctx.facts):
-            key = "OrderWrapper"    # the order wrapper, located by shape
-        want = set(INLINE_TABLE.get(key, ("", ""))[0].split(",")) - {""}
-        ctx.ob("R8.1", p, "inline-holder-in-table", key in INLINE_TABLE and s <= want, "", "holds inline %s; table allows %s (%s)" % (
-            sorted(s), sorted(want), INLINE_TABLE.get(key, ("", "not in table"))[1]))
+            why.append("the slot enum itself: only ever stored inside Pin<Box<[Slot<F>]>> (checked above)")
+        else:
+            pf = pinned_fields(ctx, p)
+            for fname, gs in sorted(getattr(inline_generics, "per_field", {}).get(p, {}).items()):
+                for g in sorted(gs):
+                    if fname in pf:
+                        why.append("%s in #[pin] field `%s`" % (g, fname))
+                    elif (p.split("::")[-1], g) in UNPINNED_OK:
+                        why.append("%s in unpinned field `%s`: %s" % (g, fname, UNPINNED_OK[(p.split("::")[-1], g)]))
+                    else:
+                        okh = False
+                        why.append("%s INLINE IN UNPINNED FIELD `%s`" % (g, fname))
+        ctx.ob("R8.1", p, "inline-holder-in-table", okh, "", "holds inline %s: %s" % (sorted(s), "; ".join(why)))
     ctx.floor("R8.1", "inline-holders", sum(1 for p_, s in ig.items() if s and "::_::" not in p_), 5)
     # manual Unpin impls
     m = 0
